@@ -100,13 +100,19 @@ Definition txt_comm_error : list byte :=         (* run_daemon: "Error: Communic
   [69;114;114;111;114;58;32;67;111;109;109;117;110;105;99;97;116;105;111;110;32;101;114;114;111;114;32;119;105;116;104;32;100;97;101;109;111;110;10].
 
 (* ------------------------------------------------------------------ what the handler is parameterised by *)
-Record cfg := { c_ignores_sigpipe : bool;      (* SIGPIPE disposition of the process is SIG_IGN *)
-                c_verify_first : bool }.       (* client_thread calls nvm_verify before vm_execute *)
+Record cfg := { c_ignores_sigpipe : bool;      (* SIGPIPE disposition of the process is SIG_IGN when the accept loop starts (setup_signals) *)
+                c_verify_first : bool;         (* client_thread calls nvm_verify before vm_execute *)
+                c_exit_from_main : bool;       (* client_thread sends main's int result (low 8 bits) as the exit code instead of 0 *)
+                c_ffi_sets : option bool }.    (* disposition left behind by a session whose program used the FFI co-process:
+                                                  Some true = SIG_IGN, Some false = not SIG_IGN, None = untouched
+                                                  (from the SIGPIPE-setting calls reachable from client_thread, NV.gen.SigpipeSites) *)
 
 Inductive run_result :=
-  | Ran (chunks : list (list byte)) (err : option (list byte))
+  | Ran (chunks : list (list byte)) (err : option (list byte)) (status : N) (ffi : bool)
       (* vm_execute returned; [chunks] = the successive buffers handed to the FILE* write callback (flushes);
-         err = Some text: result <> VM_OK and text = "Runtime error: <kind>[\n  <detail>]" *)
+         err = Some text: result <> VM_OK and text = "Runtime error: <kind>[\n  <detail>]";
+         status = (int)main's result as an unsigned 32-bit pattern when it is an int, else 0;
+         ffi = the program made an extern call, so the co-process was started and, at the end of the session, stopped *)
   | Crashed (chunks : list (list byte)).
       (* the VM performed an invalid memory access after emitting [chunks]: the process receives SIGSEGV *)
 
@@ -115,8 +121,12 @@ Record vm_oracle := {
   o_verify : list byte -> option (list byte);     (* nvm_verify: None = ok, Some msg = refused *)
   o_run    : list byte -> run_result }.
 
-Record daemon := { alive : bool; active : Z; shutdown : bool }.
-Definition d0 : daemon := {| alive := true; active := 0; shutdown := false |}.
+(* sigign: the process-wide SIGPIPE disposition is SIG_IGN (sessions can change it: it is state, not configuration) *)
+Record daemon := { alive : bool; active : Z; shutdown : bool; sigign : bool }.
+Definition boot (c : cfg) : daemon := {| alive := true; active := 0; shutdown := false; sigign := c_ignores_sigpipe c |}.
+(* the handler configuration with the disposition that is in force now *)
+Definition now (c : cfg) (d : daemon) : cfg :=
+  {| c_ignores_sigpipe := sigign d; c_verify_first := c_verify_first c; c_exit_from_main := c_exit_from_main c; c_ffi_sets := c_ffi_sets c |}.
 
 (* ------------------------------------------------------------------ writes on the connection *)
 Record wr := { w_sent : list byte; w_left : option nat; w_killed : bool }.
@@ -166,36 +176,58 @@ Definition load_exec (c : cfg) (O : vm_oracle) (h : hdr) (rest : list byte) (w :
       | None =>
           match o_run O blob with
           | Crashed chunks => kill (send_chunks c w chunks)
-          | Ran chunks None => send c (send_chunks c w chunks) (exit_frame 0)
-          | Ran chunks (Some e) => send c (send c (send_chunks c w chunks) (error_frame e)) (exit_frame 1)
+          | Ran chunks None st _ => send c (send_chunks c w chunks) (exit_frame (if c_exit_from_main c then st mod 256 else 0))
+          | Ran chunks (Some e) _ _ => send c (send c (send_chunks c w chunks) (error_frame e)) (exit_frame 1)
           end
       end
   end.
 
-(* client_thread; [wb] = number of write() calls that still succeed (None: all) *)
-Definition client_thread (c : cfg) (O : vm_oracle) (input : list byte) (wb : option nat) (d : daemon) : list byte * daemon :=
+(* the session reached vm_execute with a program that used the FFI co-process (vm_ffi_cop_start ... vm_ffi_cop_stop ran) *)
+Definition used_cop (c : cfg) (O : vm_oracle) (h : hdr) (rest : list byte) : bool :=
+  if (h_len h =? 0) || (VMD_MAX_PAYLOAD <? h_len h) then false
+  else match take (h_len h) rest with
+  | None => false
+  | Some (blob, _) =>
+      if negb (o_deser O blob) then false
+      else match (if c_verify_first c then o_verify O blob else None) with
+      | Some _ => false
+      | None => match o_run O blob with Ran _ _ _ f => f | Crashed _ => false end
+      end
+  end.
+
+(* client_thread; [wb] = number of write() calls that still succeed (None: all).
+   Writes happen under the disposition in force when the session starts; a session that used the co-process leaves the
+   disposition c_ffi_sets behind (vm_ffi_cop_start sets SIG_IGN in mid-session, which can only make this model pessimistic
+   for a daemon that was not ignoring SIGPIPE to begin with). *)
+Definition client_thread (c0 : cfg) (O : vm_oracle) (input : list byte) (wb : option nat) (d : daemon) : list byte * daemon :=
   if negb (alive d) then ([], d) else
-  let d1 := {| alive := true; active := active d + 1; shutdown := shutdown d |} in
+  let c := now c0 d in
+  let d1 := {| alive := true; active := active d + 1; shutdown := shutdown d; sigign := sigign d |} in
   let w0 := {| w_sent := []; w_left := wb; w_killed := false |} in
-  let fin (w : wr) (sd : bool) :=
-      (w_sent w, if w_killed w then {| alive := false; active := active d1; shutdown := sd |}
-                 else {| alive := true; active := active d1 - 1; shutdown := sd |}) in
+  let fin (w : wr) (sd : bool) (sg : bool) :=
+      (w_sent w, if w_killed w then {| alive := false; active := active d1; shutdown := sd; sigign := sg |}
+                 else {| alive := true; active := active d1 - 1; shutdown := sd; sigign := sg |}) in
   match recv_header input with
   | ROk h rest =>
-      if h_type h =? VMD_MSG_PING then fin (send c w0 (fr VMD_MSG_PONG [])) (shutdown d)
-      else if h_type h =? VMD_MSG_SHUTDOWN then fin (send c w0 (fr VMD_MSG_PONG [])) true
+      if h_type h =? VMD_MSG_PING then fin (send c w0 (fr VMD_MSG_PONG [])) (shutdown d) (sigign d)
+      else if h_type h =? VMD_MSG_SHUTDOWN then fin (send c w0 (fr VMD_MSG_PONG [])) true (sigign d)
       else if h_type h =? VMD_MSG_STATUS then
-        fin (send c w0 (fr VMD_MSG_STATUS_RSP (txt_active ++ dec_Z (active d1)))) (shutdown d)
-      else if h_type h =? VMD_MSG_LOAD_EXEC then fin (load_exec c O h rest w0) (shutdown d)
-      else fin (send c w0 (error_frame txt_unknown_type)) (shutdown d)
-  | _ => fin w0 (shutdown d)                        (* goto done: nothing is written *)
+        fin (send c w0 (fr VMD_MSG_STATUS_RSP (txt_active ++ dec_Z (active d1)))) (shutdown d) (sigign d)
+      else if h_type h =? VMD_MSG_LOAD_EXEC then
+        fin (load_exec c O h rest w0) (shutdown d)
+            (if used_cop c O h rest then match c_ffi_sets c with Some v => v | None => sigign d end else sigign d)
+      else fin (send c w0 (error_frame txt_unknown_type)) (shutdown d) (sigign d)
+  | _ => fin w0 (shutdown d) (sigign d)                        (* goto done: nothing is written *)
   end.
 
 Definition session := (list byte * option nat)%type.
 Definition serve (c : cfg) (O : vm_oracle) (d : daemon) (ss : list session) : daemon :=
   fold_left (fun d s => snd (client_thread c O (fst s) (snd s) d)) ss d.
 
-(* ------------------------------------------------------------------ the client side: vmd_execute + run_daemon *)
+(* ------------------------------------------------------------------ the client side: vmd_execute + run_daemon
+   The client is a blocking reader with NO time limit between connect and EXIT_CODE: read_all() waits until bytes arrive or the
+   peer closes, so client_loop is a function of the reply bytes alone, however long the daemon stays silent between two frames.
+   (Tied to the source by NV.gen.VmdFacts.vmd_client_has_timeout = false, theorem C17_client_waits_indefinitely.) *)
 Inductive cexit := CExit (code : N) | CCommError.
 Record obs := { o_stdout : list byte; o_stderr : list byte; o_exit : N }.
 
@@ -230,14 +262,15 @@ Definition client_observe (reply : list byte) : obs :=
   | (out, err, CCommError) => {| o_stdout := out; o_stderr := err ++ txt_comm_error; o_exit := 1 |}
   end.
 
-(* what `nano_vm x.nvm` shows for a module that loads and verifies (run_standalone) *)
-Definition standalone_observe (O : vm_oracle) (blob : list byte) : option obs :=
+(* what `nano_vm x.nvm` shows for a module that loads and verifies (run_standalone);
+   sm = run_standalone turns main's int result into the exit status *)
+Definition standalone_observe (sm : bool) (O : vm_oracle) (blob : list byte) : option obs :=
   if o_deser O blob then
     match o_verify O blob with
     | Some _ => None                                     (* refused with a path-dependent message; not compared *)
     | None => match o_run O blob with
-              | Ran chunks None => Some {| o_stdout := concat chunks; o_stderr := []; o_exit := 0 |}
-              | Ran chunks (Some e) => Some {| o_stdout := concat chunks; o_stderr := e ++ [10]; o_exit := 1 |}
+              | Ran chunks None st _ => Some {| o_stdout := concat chunks; o_stderr := []; o_exit := if sm then st mod 256 else 0 |}
+              | Ran chunks (Some e) _ _ => Some {| o_stdout := concat chunks; o_stderr := e ++ [10]; o_exit := 1 |}
               | Crashed _ => None
               end
     end
